@@ -273,9 +273,19 @@ def check_dense(ctx):
             continue
         lo_k, hi_k, col_k = valkey(idx[0].lo), valkey(idx[0].hi), valkey(idx[1])
         ok = ".left" in lo_k and ".right" in hi_k and "icolumns" in col_k and ".right" not in lo_k and ".left" not in hi_k
-        adj = ("Add" in lo_k, "Add" in hi_k)
+        # open/closed adjustment: +1 on the start iff the interval is open on the left,
+        # +1 on the end iff it is closed on the right (decided per path from the branch facts)
+        start_open = end_closed = None
+        for c, v in p.facts:
+            if c.t[0] == "opq" and "closed" in c.key:
+                if "neither" in c.key and "right" in c.key:
+                    start_open = v
+                if "both" in c.key and "right" in c.key:
+                    end_closed = v
+        want_lo, want_hi = (1 if start_open else 0), (1 if end_closed else 0)
+        ok = ok and lo_k.count("Add(") == want_lo and hi_k.count("Add(") == want_hi
         if first or not ok:
-            ctx.check(ok, rule, "store|index", s.loc(), "rows come from the anomaly's own interval (left .. right) and columns from its own icolumns", found=f"[{lo_k[:70]} : {hi_k[:70]}, {col_k[:60]}]")
+            ctx.check(ok, rule, "store|index", s.loc(), "rows come from the anomaly's own interval (left .. right) and columns from its own icolumns", found=f"[{lo_k[:70]} : {hi_k[:70]}, {col_k[:60]}] with start_open={start_open} end_closed={end_closed}", expected="labels[left(+1 iff open on the left) : right(+1 iff closed on the right), icolumns]")
         okv = isinstance(val, Num) and nf_equal(val.nf, lv + 1) and not s.data.get("aug")
         if first or not okv:
             ctx.check(okv, rule, "store|label", s.loc(), "anomaly number i (0-based position in the sparse output) is marked with label i + 1", found=repr(val), expected="i + 1")
